@@ -104,6 +104,21 @@ def typename_of(value):
     return tn if tn is not None else value.__class__.__name__
 
 
+class RequestState:
+    """per-request harness state: data, logs, the context object handed to execute"""
+
+    def __init__(self, tree, ctx=None, rid=0):
+        self.tree = tree
+        self.mat = Materialiser(tree) if tree is not None else None
+        self.calls = []
+        self.type_calls = []
+        self.unexpected = []
+        self.hooks = []
+        self.rid = rid
+        self.ctx = ctx if ctx is not None else {"$rs": self, "rid": rid}
+        self.fault_seq = itertools.count()
+
+
 class Harness:
     """plan keys (all optional):
       default_fields: list of "Type.field" left to the engine's default resolver
@@ -118,48 +133,55 @@ class Harness:
     def __init__(self, schema, plan, tree, schema_name=None, gate=None):
         self.schema = schema
         self.plan = plan or {}
-        self.tree = tree
-        self.mat = Materialiser(tree)
         self.name = schema_name or fresh_schema_name()
-        self.calls = []
-        self.type_calls = []
-        self.unexpected = []
         self.ctx_token = {"token": self.name}
+        self.rs = RequestState(tree, self.ctx_token)
         self.gate = gate  # async callable(label) or None
         self.sdl = None
         self.engine = None
-        self.hooks = []  # (directive name, hook name) for every harness directive hook invocation
-        self.fault_seq = itertools.count()
+
+    # default request state (one request at a time); C15 passes its own states through the context
+    tree = property(lambda self: self.rs.tree)
+    mat = property(lambda self: self.rs.mat)
+    calls = property(lambda self: self.rs.calls)
+    type_calls = property(lambda self: self.rs.type_calls)
+    unexpected = property(lambda self: self.rs.unexpected)
+    hooks = property(lambda self: self.rs.hooks)
+
+    def state_of(self, ctx):
+        if isinstance(ctx, dict) and "$rs" in ctx:
+            return ctx["$rs"]
+        return self.rs
 
     # ---------------------------------------------------------------- resolvers
-    def serve(self, parent, obj, field, args, path):
+    def serve(self, rs, parent, obj, field, args, path):
         fd = fields_of(self.schema, obj)[field]
-        f = self.tree.faults.get(path)
+        f = rs.tree.faults.get(path)
         if f is not None:
-            return self.perform(f)
-        node = self.tree.store["nodes"].get(str(nid_of(parent))) if nid_of(parent) is not None else None
+            return self.perform(rs, f)
+        node = rs.tree.store["nodes"].get(str(nid_of(parent))) if nid_of(parent) is not None else None
         if node is None or field not in node:
-            self.unexpected.append((path, "%s.%s" % (obj, field)))
+            rs.unexpected.append((path, "%s.%s" % (obj, field)))
             return None
-        v = node_get(self.mat.obj(node), field)
+        v = node_get(rs.mat.obj(node), field)
         if args and fd["type"] in ("String", "String!") and isinstance(v, str) and self.plan.get("echo_args", True):
             v = arg_echo(v, args)
-        return self.item_faults(v, path)
+        return self.item_faults(rs, v, path)
 
-    def item_faults(self, v, path):
-        if isinstance(v, list) and self.tree.faults:
+    def item_faults(self, rs, v, path):
+        if isinstance(v, list) and rs.tree.faults:
             out = []
             for i, x in enumerate(v):
-                f = self.tree.faults.get(path + (i,))
+                f = rs.tree.faults.get(path + (i,))
                 if f is not None:
-                    out.append(self.perform(f, as_item=True))
+                    out.append(self.perform(rs, f, as_item=True))
                 else:
-                    out.append(self.item_faults(x, path + (i,)))
+                    out.append(self.item_faults(rs, x, path + (i,)))
             return out
         return v
 
-    def perform(self, f, as_item=False):
-        n = next(self.fault_seq)
+    def perform(self, rs, f, as_item=False):
+        n = next(rs.fault_seq)
         if f.kind == "raise":
             raise RuntimeError("boom-%d" % n)
         if f.kind == "raise_tartiflette":
@@ -176,10 +198,11 @@ class Harness:
 
         async def resolver(parent, args, ctx, info):
             path = tuple(info.path.as_list())
-            H.calls.append((path, coord, nid_of(parent), copy.deepcopy(args), ctx is H.ctx_token))
+            rs = H.state_of(ctx)
+            rs.calls.append((path, coord, nid_of(parent), copy.deepcopy(args), ctx is rs.ctx))
             if H.gate is not None:
-                await H.gate(("resolver", path))
-            return H.serve(parent, obj, field, args, path)
+                await H.gate(("resolver", path) if rs is H.rs else ("resolver", path, rs.rid))
+            return H.serve(rs, parent, obj, field, args, path)
 
         resolver.__name__ = "res_%s_%s" % (obj, field)
         return resolver
@@ -187,13 +210,15 @@ class Harness:
     async def custom_default_resolver(self, parent, args, ctx, info):
         path = tuple(info.path.as_list())
         coord = "%s.%s" % (info.parent_type.name, info.field_name)
-        self.calls.append((path, coord, nid_of(parent), copy.deepcopy(args), ctx is self.ctx_token))
+        rs = self.state_of(ctx)
+        rs.calls.append((path, coord, nid_of(parent), copy.deepcopy(args), ctx is rs.ctx))
         if self.gate is not None:
-            await self.gate(("resolver", path))
-        return self.serve(parent, info.parent_type.name, info.field_name, args, path)
+            await self.gate(("resolver", path) if rs is self.rs else ("resolver", path, rs.rid))
+        return self.serve(rs, parent, info.parent_type.name, info.field_name, args, path)
 
     # ---------------------------------------------------------------- type resolvers
-    def _answer(self, value, abstract, level, info, coord):
+    def _answer(self, value, abstract, level, info, coord, ctx=None):
+        rs = self.state_of(ctx)
         levels_present = []
         if coord in (self.plan.get("tr_field") or ()):
             levels_present.append("field")
@@ -202,8 +227,8 @@ class Harness:
         if self.plan.get("tr_engine"):
             levels_present.append("engine")
         path = tuple(info.path.as_list())
-        self.type_calls.append((path, abstract, coord, level))
-        f = self.tree.faults.get(("$type", nid_of(value)))
+        rs.type_calls.append((path, abstract, coord, level))
+        f = rs.tree.faults.get(("$type", nid_of(value)))
         truth = typename_of(value)
         if f is not None:
             answer = f.payload
@@ -224,7 +249,7 @@ class Harness:
 
         def type_resolver(result, ctx, info, abstract_type):
             coord = "%s.%s" % (info.parent_type.name, info.field_name)
-            return H._answer(result, abstract_type.name, level, info, coord)
+            return H._answer(result, abstract_type.name, level, info, coord, ctx)
 
         return type_resolver
 
@@ -281,18 +306,13 @@ class Harness:
 
     def set_tree(self, tree):
         """switch to the data of another request on the same engine"""
-        self.tree = tree
-        self.mat = Materialiser(tree)
-        self.reset_logs()
+        self.rs = RequestState(tree, self.ctx_token)
 
     def root_value(self, typename):
         return self.mat.obj(self.tree.root(typename))
 
     def reset_logs(self):
-        self.hooks = []
-        self.calls = []
-        self.type_calls = []
-        self.unexpected = []
+        self.rs = RequestState(self.rs.tree, self.ctx_token)
 
 
 def make_counting_directive(H, name):
@@ -300,31 +320,37 @@ def make_counting_directive(H, name):
 
     class D:
         async def on_argument_execution(self, directive_args, next_directive, parent_node, argument_definition_node, argument_node, value, ctx):
-            H.hooks.append((name, "on_argument_execution"))
+            rs = H.state_of(ctx)
+            rs.hooks.append((name, "on_argument_execution"))
+            if H.gate is not None and H.plan.get("gate_hooks"):
+                await H.gate(("hook", name, "on_argument_execution", len(rs.hooks), rs.rid))
             return await next_directive(parent_node, argument_definition_node, argument_node, value, ctx)
 
         async def on_post_input_coercion(self, directive_args, next_directive, parent_node, value, ctx):
-            H.hooks.append((name, "on_post_input_coercion"))
+            rs = H.state_of(ctx)
+            rs.hooks.append((name, "on_post_input_coercion"))
+            if H.gate is not None and H.plan.get("gate_hooks"):
+                await H.gate(("hook", name, "on_post_input_coercion", len(rs.hooks), rs.rid))
             return await next_directive(parent_node, value, ctx)
 
         async def on_field_execution(self, directive_args, next_resolver, parent, args, ctx, info):
-            H.hooks.append((name, "on_field_execution"))
+            H.state_of(ctx).hooks.append((name, "on_field_execution"))
             return await next_resolver(parent, args, ctx, info)
 
         async def on_pre_output_coercion(self, directive_args, next_directive, value, ctx, info):
-            H.hooks.append((name, "on_pre_output_coercion"))
+            H.state_of(ctx).hooks.append((name, "on_pre_output_coercion"))
             return await next_directive(value, ctx, info)
 
         async def on_field_collection(self, directive_args, next_directive, field_node, ctx):
-            H.hooks.append((name, "on_field_collection"))
+            H.state_of(ctx).hooks.append((name, "on_field_collection"))
             return await next_directive(field_node, ctx)
 
         async def on_fragment_spread_collection(self, directive_args, next_directive, fragment_spread_node, ctx):
-            H.hooks.append((name, "on_fragment_spread_collection"))
+            H.state_of(ctx).hooks.append((name, "on_fragment_spread_collection"))
             return await next_directive(fragment_spread_node, ctx)
 
         async def on_inline_fragment_collection(self, directive_args, next_directive, inline_fragment_node, ctx):
-            H.hooks.append((name, "on_inline_fragment_collection"))
+            H.state_of(ctx).hooks.append((name, "on_inline_fragment_collection"))
             return await next_directive(inline_fragment_node, ctx)
 
     D.__name__ = "D_" + name
